@@ -1076,6 +1076,55 @@ def r29_no_shared_fields(ctx, funcs, rule='R29'):
     return n
 
 
+def r29_no_shared_descriptor_values(ctx, funcs, rule='R29d'):
+    """The same for what a step stores into the resource descriptors themselves: inside the loop over the descriptors, a value that
+    comes from the step's arguments (a name of the enclosing factory: `props`, `primary_key`) is stored into each selected resource
+    as it is - `resource.update(props)`, `schema['primaryKey'] = primary_key` - so every selected resource holds the very same
+    objects (a schema dict, a list).  The deep copy each later step takes of the whole descriptor keeps that sharing, and a step
+    that then edits one selected resource in place edits the others too."""
+    run = ctx.run
+    run.rule(rule, 'NO-SHARED-DESCRIPTOR-VALUES: a value of the enclosing factory scope that is stored into a resource descriptor inside '
+                   'the loop over the descriptors (update(x) / [k] = x / setdefault(k, x)) is copied per resource (copy.deepcopy, or a '
+                   'fresh literal / dict(..) / list(..) of immutable parts)')
+    n = 0
+    for f in funcs:
+        if not isinstance(f.parent, FuncInfo):
+            continue
+        outer = set(f.parent.all_params) | {t.id for x in own_nodes(f.parent.node) if isinstance(x, ast.Assign) for t in x.targets
+                                            if isinstance(t, ast.Name)}
+        local = {t.id for x in own_nodes(f.node) if isinstance(x, ast.Name) and isinstance(x.ctx, ast.Store) for t in [x]} | set(f.all_params)
+        outer -= local
+        if not outer:
+            continue
+        for loop in _descr_loops(ctx, f):
+            aliases = _alias_closure(f, loop.target.id)
+            for nd in ast.walk(loop):
+                vals = []
+                if isinstance(nd, ast.Call) and isinstance(nd.func, ast.Attribute) and nd.func.attr in ('update', 'setdefault') and nd.args:
+                    b = nd.func.value
+                    while isinstance(b, (ast.Subscript, ast.Attribute)) or (isinstance(b, ast.Call) and isinstance(b.func, ast.Attribute)):
+                        b = b.value if not isinstance(b, ast.Call) else b.func.value
+                    if isinstance(b, ast.Name) and b.id in aliases:
+                        vals = [nd.args[-1]] + [k.value for k in nd.keywords]
+                elif isinstance(nd, ast.Assign) and isinstance(nd.targets[0], ast.Subscript):
+                    b = nd.targets[0]
+                    while isinstance(b, (ast.Subscript, ast.Attribute)) or (isinstance(b, ast.Call) and isinstance(b.func, ast.Attribute)):
+                        b = b.value if not isinstance(b, ast.Call) else b.func.value
+                    if isinstance(b, ast.Name) and b.id in aliases:
+                        vals = [nd.value]
+                for v in vals:
+                    if isinstance(v, ast.Name) and v.id in outer:
+                        n += 1
+                        run.check(False, rule, where(ctx.repo, nd), f.qualname, nd,
+                                  'the step\'s own argument %s is stored into every selected resource as it is: the resources share one '
+                                  'object (and share it with the caller), so a later step that edits one of them in place - set_type, '
+                                  'set_primary_key, rename_fields on a selected resource - changes the others too' % v.id)
+                    elif isinstance(v, ast.Call) and names_in(v) & outer and _fresh(ctx, v):
+                        n += 1
+                        run.ok(rule, where(ctx.repo, nd), f.qualname + ': ' + u(nd)[:100], 'copied per resource')
+    return n
+
+
 def package_phase_functions(ctx):
     """Package steps, their module-local helpers, and the package-phase methods of processor classes."""
     funcs = []
